@@ -346,7 +346,9 @@ class C18(Property):
                "pickle: faithfulness for Records/features is checked on generated records by object-graph "
                "isomorphism with in-process execution, not proved",
                "scheduled cases steer CPython's ThreadPool through the private MapResult._number_left counter",
-               "the OS scheduler: real completion orders are observed (log), not enumerated"]
+               "the OS scheduler: real completion orders are observed (log), not enumerated",
+               "identifier rewriting is C16's Lean model (Model/Ids.lean); worker functions are modelled on "
+               "(sequence, skip, #CDS) for ASCII sequences; everything else in a Record is compared by object graph"]
 
     def __init__(self) -> None:
         self._procs: List[Tuple[subprocess.Popen, List[Dict[str, Any]]]] = []
